@@ -82,6 +82,7 @@ def truthy(v: V):
             z3.Implies(ValSort.is_S(t), z3.Length(ValSort.sv(t)) > 0),
             z3.Implies(ValSort.is_LS(t), z3.Length(ValSort.lsv(t)) > 0),
             z3.Implies(ValSort.is_LI(t), z3.Length(ValSort.liv(t)) > 0),
+            z3.Implies(ValSort.is_LV(t), z3.Length(ValSort.lvv(t)) > 0),
             z3.Implies(ValSort.is_D(t), ValSort.dv(t) != EmptyDict))
     if isinstance(v, VConst):
         return z3.BoolVal(bool(v.py))
@@ -104,6 +105,18 @@ def eq(a: V, b: V):
         return z3.BoolVal(a.py == b.py)
     if isinstance(a, VNone) and isinstance(b, VNone):
         return z3.BoolVal(True)
+    # packed comparison: one term equality instead of a component-wise expansion
+    for x, y in ((a, b), (b, a)):
+        pk = getattr(x, "packed", None)
+        if pk is None:
+            continue
+        try:
+            if isinstance(x, VTuple) and isinstance(y, VTuple) and len(x.items) == len(y.items):
+                return pk == x.pty.pack(y)
+            if isinstance(x, VOpt) and isinstance(y, (VOpt, VNone)):
+                return pk == Opt(x.ty.inner).pack(y)
+        except Unsupported:
+            pass
     if isinstance(a, VOpt) or isinstance(b, VOpt):
         if isinstance(b, VOpt) and not isinstance(a, VOpt):
             a, b = b, a
@@ -179,6 +192,20 @@ def merge(cond, a: V, b: V) -> V:
         b = _lift_const(b)
     if isinstance(a, VNone) and isinstance(b, VNone):
         return a
+    # packed merge: one ite over a single datatype term keeps recursive calls unshared-but-single
+    for x, y in ((a, b), (b, a)):
+        if isinstance(x, VTuple) and getattr(x, "packed", None) is not None and isinstance(y, VTuple):
+            try:
+                ta, tb = x.pty.pack(a), x.pty.pack(b)
+                return x.pty.wrap(z3.If(cond, ta, tb))
+            except Unsupported:
+                break
+        if isinstance(x, VOpt) and getattr(x, "packed", None) is not None and not isinstance(y, (VNode,)):
+            try:
+                oty = Opt(x.ty.inner)
+                return oty.wrap(z3.If(cond, oty.pack(a), oty.pack(b)))
+            except (Unsupported, z3.Z3Exception):
+                break
     if isinstance(a, VNode) or isinstance(b, VNode):
         nty = a.ty if isinstance(a, VNode) else b.ty
         return VNode(z3.If(cond, nty.pack(a), nty.pack(b)), nty)
